@@ -9,6 +9,7 @@ import (
 	"os"
 	"path/filepath"
 	"runtime"
+	"strings"
 	"sync"
 	"sync/atomic"
 	"testing"
@@ -39,6 +40,20 @@ type Case struct {
 	Perturb uint64     `json:"perturb"` // seed of the schedule perturbation at the hook points
 	Procs   int        `json:"procs"`
 	Maxpend int        `json:"maxpend"`
+	// Pre: deep-path client calls (paths of more than 16 elements, several
+	// Twalks each) made on every shared client by one goroutine BEFORE the
+	// concurrent phase (ufs and script targets)
+	Pre []string `json:"pre,omitempty"`
+	// RootForm: spelling of Ufs.Root ("" clean, "slash" trailing slash, "dot"
+	// a/./b, "dslash" doubled slashes, "dotdot" a/x/../b)
+	RootForm string `json:"rootform,omitempty"`
+	// Together: the NConn connections of the ufs target mount (Tversion,
+	// Tattach) at the same moment instead of one after the other
+	Together bool `json:"together,omitempty"`
+	// Storm: before the workload, this many fresh Ufs servers (same root
+	// spelling) are each attached to by NConn connections at the same moment;
+	// every connection stats a file of its own and is dropped
+	Storm int `json:"storm,omitempty"`
 }
 
 const deadline = 30 * time.Second
@@ -162,8 +177,23 @@ func runUfs(c *Case) error {
 			_ = os.WriteFile(fn, []byte("x"), 0o644)
 			_ = os.Chown(fn, base+i*64+k, base+2048+i*64+k)
 		}
+		// a chain of 36 nested directories with a file below the 20th and the 36th
+		if err := os.MkdirAll(filepath.Join(d, deepPath(36)), 0o755); err != nil {
+			return fmt.Errorf("harness: %v", err)
+		}
+		_ = os.WriteFile(filepath.Join(d, deepPath(20), "leaf"), []byte(leafData), 0o644)
+		_ = os.WriteFile(filepath.Join(d, deepPath(36), "bottom"), []byte(bottomData), 0o644)
 	}
-	u := ufsrv.Start(dir, c.Dotu, 8192)
+	root, err := spellRoot(dir, c.RootForm)
+	if err != nil {
+		return err
+	}
+	for k := 0; k < c.Storm; k++ {
+		if err := attachStorm(c, root, k); err != nil {
+			return err
+		}
+	}
+	u := ufsrv.Start(root, c.Dotu, 8192)
 	if c.Debug {
 		u.Debuglevel = go9p.DbgLogFcalls
 	}
@@ -171,16 +201,23 @@ func runUfs(c *Case) error {
 	f := &fail{}
 	var wg sync.WaitGroup
 	var clnts []*go9p.Clnt
-	for ci := 0; ci < c.NConn; ci++ {
-		clnt, _, err := ufsrv.Mount(u, fmt.Sprintf("c19-%d", ci), fmt.Sprintf("conn%d", ci), 8192)
-		if err != nil {
-			return fmt.Errorf("mount: %v", err)
-		}
+	clnts, err = mountAll(u, c.NConn, c.Together, "c19")
+	if err != nil {
+		return err
+	}
+	for _, clnt := range clnts {
 		if c.Debug {
 			clnt.Debuglevel = go9p.DbgLogFcalls
 			clnt.Log = go9p.NewLogger(32)
 		}
-		clnts = append(clnts, clnt)
+	}
+	// the clients' past: deep paths resolved while nothing else goes on
+	for ci, clnt := range clnts {
+		for k, op := range c.Pre {
+			if err := ufsDeep(clnt, op, fmt.Sprintf("conn %d before the concurrent phase, call %d %s", ci, k, op)); err != nil {
+				return err
+			}
+		}
 	}
 	for ci, clnt := range clnts {
 		for g := 0; g < c.G; g++ {
@@ -218,6 +255,146 @@ func runUfs(c *Case) error {
 		cl.Unmount()
 	}
 	return err
+}
+
+const leafData = "leaf below twenty directories"
+const bottomData = "bottom of thirty-six directories"
+
+// deepPath is the chain e01/e02/.../eNN below a connection's directory.
+func deepPath(n int) string {
+	parts := make([]string, n)
+	for i := range parts {
+		parts[i] = fmt.Sprintf("e%02d", i+1)
+	}
+	return strings.Join(parts, "/")
+}
+
+// spellRoot returns the exported directory in the drawn spelling; every
+// spelling names the same directory.
+func spellRoot(dir, form string) (string, error) {
+	parent, base := filepath.Split(dir) // parent ends in a slash
+	switch form {
+	case "":
+		return dir, nil
+	case "slash":
+		return dir + "/", nil
+	case "dot":
+		return parent + "./" + base, nil
+	case "dslash":
+		return strings.ReplaceAll(dir, "/", "//"), nil
+	case "dotdot":
+		return dir + "/conn0/../", nil
+	}
+	return "", fmt.Errorf("harness: root form %q", form)
+}
+
+// mountAll mounts n clients on u as uid 0, connection i on its directory conn<i>;
+// together: every connection has been accepted before any of them speaks, then
+// all mount at the same moment.
+func mountAll(u *go9p.Ufs, n int, together bool, tag string) ([]*go9p.Clnt, error) {
+	clnts := make([]*go9p.Clnt, n)
+	if !together {
+		for ci := range clnts {
+			clnt, _, err := ufsrv.Mount(u, fmt.Sprintf("%s-%d", tag, ci), fmt.Sprintf("conn%d", ci), 8192)
+			if err != nil {
+				return nil, fmt.Errorf("mount: %v", err)
+			}
+			clnts[ci] = clnt
+		}
+		return clnts, nil
+	}
+	ends := make([]*xport.End, n)
+	for ci := range ends {
+		ends[ci] = ufsrv.Conn(u, fmt.Sprintf("%s-%d", tag, ci))
+	}
+	errs := make([]error, n)
+	start := make(chan struct{})
+	var wg sync.WaitGroup
+	for ci := range ends {
+		wg.Add(1)
+		go func(ci int) {
+			defer wg.Done()
+			<-start
+			clnts[ci], errs[ci] = go9p.MountConn(ends[ci], fmt.Sprintf("conn%d", ci), 8192, go9p.OsUsers.Uid2User(0))
+		}(ci)
+	}
+	close(start)
+	if err := wait(&wg, &fail{}, "mounting "+fmt.Sprint(n)+" connections at the same moment"); err != nil {
+		return nil, err
+	}
+	for ci, err := range errs {
+		if err != nil {
+			return nil, fmt.Errorf("mount of connection %d (all %d at the same moment): %v", ci, n, err)
+		}
+	}
+	return clnts, nil
+}
+
+// attachStorm: a fresh server on the same root spelling; NConn connections
+// mount at the same moment, each stats a file of its own and is dropped once
+// its requests were answered.
+func attachStorm(c *Case, root string, k int) error {
+	u := ufsrv.Start(root, c.Dotu, 8192)
+	u.Maxpend = c.Maxpend
+	clnts, err := mountAll(u, c.NConn, true, fmt.Sprintf("c19-storm%d", k))
+	if err != nil {
+		return err
+	}
+	f := &fail{}
+	var wg sync.WaitGroup
+	for ci, clnt := range clnts {
+		wg.Add(1)
+		go func(ci int, clnt *go9p.Clnt) {
+			defer wg.Done()
+			if d, err := clnt.FStat(fmt.Sprintf("own%d", (ci+k)%32)); err != nil || d.Length != 1 {
+				f.set("fresh server %d, connection %d: stat of an existing file: %v", k, ci, err)
+			}
+			clnt.Unmount()
+		}(ci, clnt)
+	}
+	return wait(&wg, f, "connections attaching to a fresh server")
+}
+
+// ufsDeep makes one client call on a path of more than 16 elements (FWalk
+// needs two or three Twalks for it) and checks the result.
+func ufsDeep(clnt *go9p.Clnt, op, what string) error {
+	switch op {
+	case "deepstat":
+		d, err := clnt.FStat(deepPath(20) + "/leaf")
+		if err != nil || d.Name != "leaf" || d.Length != uint64(len(leafData)) {
+			return fmt.Errorf("%s: FStat of a file below 20 directories: %v %v", what, d, err)
+		}
+	case "deepwalk":
+		fid, err := clnt.FWalk("/" + deepPath(36))
+		if err != nil {
+			return fmt.Errorf("%s: FWalk of 36 elements: %v", what, err)
+		}
+		d, err := clnt.Stat(fid)
+		if err != nil || d.Name != "e36" || d.Qid.Type&go9p.QTDIR == 0 {
+			return fmt.Errorf("%s: Stat of the fid walked over 36 elements: %v %v", what, d, err)
+		}
+		if err := clnt.Clunk(fid); err != nil {
+			return fmt.Errorf("%s: clunk: %v", what, err)
+		}
+	case "deepopen":
+		file, err := clnt.FOpen(deepPath(36)+"/bottom", go9p.OREAD)
+		if err != nil {
+			return fmt.Errorf("%s: FOpen of a file below 36 directories: %v", what, err)
+		}
+		buf := make([]byte, 100)
+		n, _ := file.ReadAt(buf, 0)
+		_ = file.Close()
+		if string(buf[:n]) != bottomData {
+			return fmt.Errorf("%s: read %q through a path of 37 elements, the file holds %q", what, buf[:n], bottomData)
+		}
+	case "deepmissing":
+		if _, err := clnt.FWalk(deepPath(17) + "/nosuch/x"); err == nil {
+			return fmt.Errorf("%s: FWalk to a missing path below 17 directories succeeded", what)
+		}
+	default:
+		return fmt.Errorf("harness: deep op %q", op)
+	}
+	return nil
 }
 
 func ufsWorker(c *Case, clnt *go9p.Clnt, hostdir string, g int, f *fail) {
@@ -307,6 +484,11 @@ func ufsWorker(c *Case, clnt *go9p.Clnt, hostdir string, g int, f *fail) {
 				f.set("%s: walk to a missing path succeeded", what)
 				return
 			}
+		case "deepstat", "deepwalk", "deepopen", "deepmissing":
+			if err := ufsDeep(clnt, op, what); err != nil {
+				f.set("%v", err)
+				return
+			}
 		}
 	}
 	if file != nil {
@@ -338,6 +520,11 @@ func runScript(c *Case) error {
 		}
 		clnt.Root = root
 		clnts = append(clnts, clnt)
+		for k, op := range c.Pre {
+			if err := scriptDeep(clnt, op, fmt.Sprintf("p%d_%d", ci, k), fmt.Sprintf("conn %d before the concurrent phase, call %d %s", ci, k, op)); err != nil {
+				return err
+			}
+		}
 		for g := 0; g < c.G; g++ {
 			wg.Add(1)
 			go func(ci, g int, clnt *go9p.Clnt) {
@@ -373,6 +560,45 @@ func runScript(c *Case) error {
 	return err
 }
 
+// scriptDeep walks a path of 20 / 36 / 17 elements (names unique to the caller)
+// through the client's FWalk against the scripted implementation, which
+// answers every name starting with 'd' as a directory whose qid version is the
+// length of the name.
+func scriptDeep(clnt *go9p.Clnt, op, uniq, what string) error {
+	n := map[string]int{"deepstat": 20, "deepwalk": 36, "deepopen": 33, "deepmissing": 17}[op]
+	if n == 0 {
+		return fmt.Errorf("harness: deep op %q", op)
+	}
+	parts := make([]string, n)
+	for i := range parts {
+		parts[i] = fmt.Sprintf("d%s_%d", uniq, i)
+	}
+	last := parts[n-1]
+	if op == "deepmissing" {
+		// names starting with 'x' do not exist
+		if _, err := clnt.FWalk(strings.Join(parts, "/") + "/x" + uniq + "/d"); err == nil {
+			return fmt.Errorf("%s: FWalk to a missing path below 17 directories succeeded", what)
+		}
+		return nil
+	}
+	fid, err := clnt.FWalk(strings.Join(parts, "/"))
+	if err != nil {
+		return fmt.Errorf("%s: FWalk of %d elements: %v", what, n, err)
+	}
+	if fid.Qid.Type != go9p.QTDIR || fid.Qid.Version != uint32(len(last)) {
+		return fmt.Errorf("%s: FWalk of %d elements ended on qid %v, not on the qid of its last element %q", what, n, fid.Qid, last)
+	}
+	if op == "deepstat" {
+		if _, err := clnt.Stat(fid); err != nil {
+			return fmt.Errorf("%s: stat: %v", what, err)
+		}
+	}
+	if err := clnt.Clunk(fid); err != nil {
+		return fmt.Errorf("%s: clunk: %v", what, err)
+	}
+	return nil
+}
+
 func scriptWorker(c *Case, clnt *go9p.Clnt, ci, g int, f *fail) {
 	ops := c.Ops[g%len(c.Ops)]
 	for k, op := range ops {
@@ -380,6 +606,13 @@ func scriptWorker(c *Case, clnt *go9p.Clnt, ci, g int, f *fail) {
 			return
 		}
 		what := fmt.Sprintf("conn %d goroutine %d op %d %s", ci, g, k, op)
+		if strings.HasPrefix(op, "deep") {
+			if err := scriptDeep(clnt, op, fmt.Sprintf("%d_%d_%d", ci, g, k), what); err != nil {
+				f.set("%v", err)
+				return
+			}
+			continue
+		}
 		fid := clnt.FidAlloc()
 		name := fmt.Sprintf("f%d_%d_%d", ci, g, k)
 		if op == "create" || op == "readdir" {
@@ -529,6 +762,20 @@ func execute(test string, c *Case) error {
 	hx.Eval()
 	hx.Label(fmt.Sprintf("target=%s nconn=%d", c.Target, c.NConn))
 	hx.Label(fmt.Sprintf("g=%s debug=%v flush=%v procs=%d", bucket(c.G), c.Debug, c.Flush, c.Procs))
+	if c.Target == "ufs" {
+		hx.Label(fmt.Sprintf("ufs root=%q together=%v fresh-server-storms=%v", c.RootForm, c.Together && c.NConn > 1, c.Storm > 0 && c.NConn > 1))
+	}
+	if c.Target != "scriptraw" {
+		during := false
+		for _, ops := range c.Ops {
+			for _, op := range ops {
+				if strings.HasPrefix(op, "deep") {
+					during = true
+				}
+			}
+		}
+		hx.Label(fmt.Sprintf("deep paths (>16 elements) before=%v during=%v", len(c.Pre) > 0, during))
+	}
 	hx.Sample(test, c)
 	err := run(c)
 	if h, ok := err.(hangErr); ok {
@@ -551,7 +798,10 @@ func bucket(n int) string {
 	return "7-16"
 }
 
-var opKinds = []string{"create", "write", "read", "stat", "statroot", "statowned", "statowned", "wstat", "readdir", "remove", "walkmissing"}
+var opKinds = []string{"create", "write", "read", "stat", "statroot", "statowned", "statowned", "wstat", "readdir", "remove", "walkmissing",
+	"deepstat", "deepwalk", "deepopen", "deepmissing"}
+var deepKinds = []string{"deepstat", "deepwalk", "deepopen", "deepmissing"}
+var rootForms = []string{"", "", "slash", "slash", "dot", "dslash", "dotdot"}
 
 func TestPropWorkloads(t *testing.T) {
 	hx.Check(t, "workloads", hx.N(90, 900), func(t *rapid.T) {
@@ -559,6 +809,14 @@ func TestPropWorkloads(t *testing.T) {
 			NConn: rapid.IntRange(1, 4).Draw(t, "nconn"), G: rapid.IntRange(2, 16).Draw(t, "g"), Flush: rapid.Bool().Draw(t, "flush"),
 			Debug: rapid.IntRange(0, 2).Draw(t, "debug") == 0, Churn: rapid.IntRange(0, 4).Draw(t, "churn"), Perturb: rapid.Uint64().Draw(t, "perturb"),
 			Procs: rapid.SampledFrom([]int{2, 4, 16}).Draw(t, "procs"), Maxpend: rapid.SampledFrom([]int{0, 8}).Draw(t, "maxpend")}
+		if c.Target != "scriptraw" {
+			c.Pre = rapid.SliceOfN(rapid.SampledFrom(deepKinds), 0, 3).Draw(t, "pre")
+		}
+		if c.Target == "ufs" {
+			c.RootForm = rapid.SampledFrom(rootForms).Draw(t, "rootform")
+			c.Together = rapid.Bool().Draw(t, "together")
+			c.Storm = rapid.SampledFrom([]int{0, 0, 1, 2, 4}).Draw(t, "storm")
+		}
 		ng := rapid.IntRange(1, 4).Draw(t, "nscripts")
 		for i := 0; i < ng; i++ {
 			ops := rapid.SliceOfN(rapid.SampledFrom(opKinds), 3, 14).Draw(t, "ops")
